@@ -35,7 +35,9 @@ def _kind(variant):
 
 
 def run_mt(prop, harness, variant, arg_sets, verdict, result=None, timeout=900, extra_flags=(), sources=None,
-           key_prefix=None, env=None):
+           key_prefix=None, env=None, accept=None):
+    """accept: tuple of property ids whose harness-reported violations belong to this check (default: prop only,
+    plus the generic protocol/lifetime ids C01/C02 which every harness monitors)"""
     """arg_sets: list of argument lists (one process each, run in parallel).
     Violations found are routed into `verdict`. Returns MtResult."""
     res = result or MtResult()
@@ -69,11 +71,14 @@ def run_mt(prop, harness, variant, arg_sets, verdict, result=None, timeout=900, 
             if ln.startswith("VIOL "):
                 body = ln[5:]
                 key, _, text = body.partition(" :: ")
+                owner = key.strip().split(":", 1)[0]
+                if owner not in (accept or (prop, "C01", "C02")):
+                    continue
                 verdict.violation(key.strip(), text.strip(),
                                   "cmd: %s\n\n%s\n\nstdout tail:\n%s" % (cmdline, ln, r.out[-4000:]))
         reps = []
         if _kind(variant) == "tsan":
-            reps = core.tsan_reports(r.err)
+            reps = core.tsan_reports(r.err, exe)
             res.tsan_reports += len(reps)
             for kind, key, text in reps:
                 verdict.violation("%s:tsan:%s:%s" % (kp, kind, key[:160]), "ThreadSanitizer: " + kind,
